@@ -1139,4 +1139,20 @@ def tail_wiring(tail, d, coef_names):
                         calls[k] = tuple(ids[1:4])
     if sorted(calls) != list(range(d)):
         raise Refuse('kernel calls found for axes %r, expected %r' % (sorted(calls), list(range(d))))
+    # outside the `if cuda_enabled:` hand-over (a different implementation, not modelled) the coefficient arrays occur
+    # only as the arguments of the recognised kernel calls: nothing else can read, alias or change them
+    uses = []
+
+    def visit(n):
+        if isinstance(n, ast.If) and isinstance(n.test, ast.Name) and n.test.id == 'cuda_enabled' and not n.orelse:
+            return
+        if isinstance(n, ast.Name) and n.id in coef_names:
+            uses.append(n.id)
+        for ch in ast.iter_child_nodes(n):
+            visit(ch)
+    for st in tail:
+        visit(st)
+    want = sorted(x for k in calls for x in calls[k])
+    if sorted(uses) != want:
+        raise Refuse('coefficient arrays are used after the assembly part outside the kernel calls: %r' % sorted(set(uses)))
     return calls
